@@ -46,13 +46,28 @@ def _tup(l):
     return repr(tuple(l))
 
 
+TWO_DB_ENV_PY = (
+    "# the multidb pattern, reduced: one command, one configure()/run_migrations() per database\n"
+    "from alembic import context\n"
+    "from sqlalchemy import create_engine\n"
+    "for url in context.config.attributes['urls']:\n"
+    "    eng = create_engine(url)\n"
+    "    with eng.connect() as conn:\n"
+    "        context.configure(connection=conn, target_metadata=None)\n"
+    "        with context.begin_transaction():\n"
+    "            context.run_migrations()\n"
+    "    eng.dispose()\n"
+)
+
+
 class Env:
-    def __init__(self, hist):
+    def __init__(self, hist, two_db=False):
         from alembic import command
         from alembic.config import Config
 
         self.dir = tempfile.mkdtemp(prefix="verif_c05_")
         self.db = os.path.join(self.dir, "db.sqlite")
+        self.dbs = [self.db] + ([os.path.join(self.dir, "db2.sqlite")] if two_db else [])
         ini = os.path.join(self.dir, "alembic.ini")
         cfg = Config(ini)
         cfg.set_main_option("script_location", os.path.join(self.dir, "scripts"))
@@ -64,6 +79,10 @@ class Env:
         cfg.set_main_option("script_location", os.path.join(self.dir, "scripts"))
         cfg.set_main_option("sqlalchemy.url", "sqlite:///" + self.db)
         self.cfg = cfg
+        if two_db:
+            with open(os.path.join(self.dir, "scripts", "env.py"), "w") as f:
+                f.write(TWO_DB_ENV_PY)
+            cfg.attributes["urls"] = ["sqlite:///" + d for d in self.dbs]
         vdir = os.path.join(self.dir, "scripts", "versions")
         for r in hist:
             with open(os.path.join(vdir, "%s_.py" % r["id"]), "w") as f:
@@ -73,9 +92,9 @@ class Env:
     def close(self):
         shutil.rmtree(self.dir, ignore_errors=True)
 
-    def rows(self):
+    def rows(self, k=0):
         """in the order the table hands them out (what get_current_heads sees)"""
-        con = sqlite3.connect(self.db)
+        con = sqlite3.connect(self.dbs[k])
         try:
             try:
                 return [r[0] for r in con.execute("select version_num from alembic_version")]
@@ -84,8 +103,8 @@ class Env:
         finally:
             con.close()
 
-    def set_rows(self, rows):
-        con = sqlite3.connect(self.db)
+    def set_rows(self, rows, k=0):
+        con = sqlite3.connect(self.dbs[k])
         try:
             con.execute("create table if not exists alembic_version (version_num varchar(32) not null, "
                         "constraint alembic_version_pkc primary key (version_num))")
@@ -144,11 +163,16 @@ def run(ctx, rng, n_graphs, cmds_per_graph):
         sd, info = rev_impl.load(hist)
         if sd is None:
             continue
-        env = Env(hist)
+        two_db = rng.random() < 0.3
+        env = Env(hist, two_db=two_db)
         try:
+            if two_db:
+                # the second database starts somewhere else
+                env.set_rows(gen_graph.reachable_state(rng, hist), 1)
             for k in range(cmds_per_graph):
                 before = env.rows() or []
-                purge = rng.random() < 0.4
+                before2 = (env.rows(1) or []) if two_db else None
+                purge = rng.random() < (0.65 if two_db else 0.4)
                 bogus = False
                 if purge and rng.random() < 0.3:
                     # what --purge is for: a row that names no revision
@@ -158,8 +182,12 @@ def run(ctx, rng, n_graphs, cmds_per_graph):
                 targets = rng.choice(e2e_targets(rng, hist))
                 res = env.stamp(targets, purge)
                 after = env.rows()
-                cases.append({"revs": hist, "normOrder": info["normOrder"], "before": before, "targets": targets,
-                              "purge": purge, "bogus": bogus, "res": res, "after": after})
+                c = {"revs": hist, "normOrder": info["normOrder"], "before": before, "targets": targets,
+                     "purge": purge, "bogus": bogus, "res": res, "after": after}
+                if two_db:
+                    c["dbRows"], c["db"] = [before, before2], 0
+                    cases.append(dict(c, before=before2, bogus=False, after=env.rows(1), db=1))
+                cases.append(c)
         finally:
             env.close()
     judge(ctx, cases)
@@ -179,6 +207,10 @@ def judge(ctx, cases):
         ctx.hist("e2e_stamp", ("purge" if c["purge"] else "plain") + ("+bogus-row" if c["bogus"] else ""))
         inp = {"e2e": True, "revs": c["revs"], "normOrder": c["normOrder"], "rows": c["before"], "cmd": "stamp",
                "targets": c["targets"], "purge": c["purge"]}
+        if c.get("dbRows") is not None:
+            # one command, two databases (env.py configures and migrates each in turn); this one is number `db`
+            inp["dbRows"], inp["db"] = c["dbRows"], c["db"]
+            ctx.hist("e2e_stamp_two_databases", "database %d" % (c["db"] + 1))
         start = [] if c["purge"] else c["before"]
         if "err" in m or "loadErr" in m or "stepErr" in m:
             want = {"err": m.get("err") or m.get("stepErr") or m.get("loadErr")}
@@ -241,12 +273,20 @@ def replay_case(ctx, inp):
     inp = dict(inp, revs=file_order(inp["revs"]))
     _sd, info = rev_impl.load(inp["revs"])
     inp["normOrder"] = info["normOrder"]
-    env = Env(inp["revs"])
+    two = inp.get("dbRows") is not None
+    env = Env(inp["revs"], two_db=two)
     try:
-        env.set_rows(inp["rows"])
+        if two:
+            env.set_rows(inp["dbRows"][0], 0)
+            env.set_rows(inp["dbRows"][1], 1)
+        else:
+            env.set_rows(inp["rows"])
         res = env.stamp(inp["targets"], inp.get("purge", False))
-        after = env.rows()
+        after = env.rows(inp.get("db", 0))
     finally:
         env.close()
-    judge(ctx, [{"revs": inp["revs"], "normOrder": inp.get("normOrder", {}), "before": inp["rows"], "targets": inp["targets"],
-                 "purge": inp.get("purge", False), "bogus": "deadbeef" in inp["rows"], "res": res, "after": after}])
+    c = {"revs": inp["revs"], "normOrder": inp.get("normOrder", {}), "before": inp["rows"], "targets": inp["targets"],
+         "purge": inp.get("purge", False), "bogus": "deadbeef" in inp["rows"], "res": res, "after": after}
+    if two:
+        c["dbRows"], c["db"] = inp["dbRows"], inp["db"]
+    judge(ctx, [c])
